@@ -83,6 +83,30 @@ theorem nodup_of_count_le {l l' : List Nat} (hn : l.Nodup) (h : ∀ a, l'.count 
 
 namespace Forest
 
+/-- Liveness after a removal described by multiplicities. -/
+theorem isLive_of_count {f f' : Forest} (w : f.W) {L : List Nat}
+    (hc : ∀ a, f'.allHandles.count a + L.count a = f.allHandles.count a) (x : Nat) :
+    f'.isLive x = true ↔ f.isLive x = true ∧ x ∉ L := by
+  rw [isLive_iff_mem, isLive_iff_mem, ← List.count_pos_iff, ← List.count_pos_iff,
+    ← List.count_eq_zero]
+  have h1 := hc x
+  have h2 := (List.nodup_iff_count.1 w.nodup) x
+  omega
+
+theorem isLive_eq_of_count {f f' : Forest} (w : f.W) {L : List Nat}
+    (hc : ∀ a, f'.allHandles.count a + L.count a = f.allHandles.count a) {x : Nat} (hx : x ∉ L) :
+    f'.isLive x = f.isLive x := by
+  rw [Bool.eq_iff_iff, isLive_of_count w hc x]
+  exact ⟨fun h => h.1, fun h => ⟨h, hx⟩⟩
+
+theorem isLive_eq_of_count2 {f f' : Forest} {A B : List Nat}
+    (hc : ∀ a, f'.allHandles.count a + A.count a = f.allHandles.count a + B.count a) {x : Nat}
+    (hA : x ∉ A) (hB : x ∉ B) : f'.isLive x = f.isLive x := by
+  rw [Bool.eq_iff_iff, isLive_iff_mem, isLive_iff_mem, ← List.count_pos_iff, ← List.count_pos_iff]
+  have h1 := hc x
+  rw [← List.count_eq_zero] at hA hB
+  omega
+
 /-- Non-root replacement at forest level: the generic facts. -/
 theorem replaceRoots_spec {f : Forest} (w : f.W) {h : Nat} {t : HTree} (F : HTree → List HTree)
     (hg : f.get? h = some t) (hr : f.isRoot h = false)
@@ -91,18 +115,20 @@ theorem replaceRoots_spec {f : Forest} (w : f.W) {h : Nat} {t : HTree} (F : HTre
     (∀ a, f'.allHandles.count a + (handles t).count a =
         f.allHandles.count a + (handlesList (F t)).count a) ∧
     leafOkList f'.roots = true ∧
-    (f'.allHandles.Nodup → Frame f f' (handles t ++ handlesList (F t))) := by
+    (f'.allHandles.Nodup → Frame f f' (handles t ++ handlesList (F t)) (handles t ++ handlesList (F t))) := by
   intro f'
   have hroots : f'.roots = replaceKids h F f.roots := map_replaceBelow_eq h F f.roots hr
-  refine ⟨?_, ?_, ?_⟩
-  · intro a
+  have hcount : ∀ a, f'.allHandles.count a + (handles t).count a =
+      f.allHandles.count a + (handlesList (F t)).count a := by
+    intro a
     show (handlesList f'.roots).count a + _ = _
     rw [hroots]
     exact replaceKids_count h F f.roots t w.nodup hg a
+  refine ⟨hcount, ?_, ?_⟩
   · rw [hroots]; exact leafOkList_replaceKids h F hF f.roots w.leaves
   · intro hn'
     have w' : f'.W := ⟨hn', by rw [hroots]; exact leafOkList_replaceKids h F hF f.roots w.leaves⟩
-    refine ⟨?_, ?_, rfl, rfl⟩
+    refine ⟨?_, ?_, ?_, rfl, rfl⟩
     · intro x hx
       rw [List.mem_append, not_or] at hx
       cases hxr : f.isRoot x with
@@ -118,6 +144,9 @@ theorem replaceRoots_spec {f : Forest} (w : f.W) {h : Nat} {t : HTree} (F : HTre
         exact replaceKids_parent h x 0 F f.roots t w.nodup hg hx.1 hx.2
     · intro x hx
       rw [List.mem_append, not_or] at hx
+      exact isLive_eq_of_count2 hcount hx.1 hx.2
+    · intro x hx
+      rw [List.mem_append, not_or] at hx
       unfold value? get?
       rw [hroots]
       exact replaceKids_value h x F f.roots t w.nodup hg hx.1 hx.2
@@ -127,7 +156,7 @@ theorem replaceRoots_spec {f : Forest} (w : f.W) {h : Nat} {t : HTree} (F : HTre
 theorem cut_spec {f : Forest} (w : f.W) {h : Nat} {t : HTree} (hg : f.get? h = some t) :
     (f.cut h).2 = some t ∧ (f.cut h).1.W ∧
     (∀ a, (f.cut h).1.allHandles.count a + (handles t).count a = f.allHandles.count a) ∧
-    Frame f (f.cut h).1 (handles t) ∧ leafOk t = true := by
+    Frame f (f.cut h).1 (handles t) (handles t) ∧ leafOk t = true := by
   have hlt : leafOk t = true := findList?_leafOk h f.roots t w.leaves hg
   cases hr : f.isRoot h with
   | true =>
@@ -135,10 +164,12 @@ theorem cut_spec {f : Forest} (w : f.W) {h : Nat} {t : HTree} (hg : f.get? h = s
       unfold cut; rw [hg, hr]; rfl
     rw [hc]
     obtain ⟨i1, i2, i3, i4⟩ := rootsFilter h f.roots t w.nodup hr hg
-    refine ⟨rfl, ⟨?_, (i4 w.leaves).1⟩, i1, ⟨?_, ?_, rfl, rfl⟩, hlt⟩
+    refine ⟨rfl, ⟨?_, (i4 w.leaves).1⟩, i1, ⟨?_, ?_, ?_, rfl, rfl⟩, hlt⟩
     · show (handlesList (f.roots.filter (fun r => r.handle != h))).Nodup
       exact nodup_of_count_le w.nodup (fun a => by have := i1 a; unfold allHandles; omega)
     · intro x hx; rw [parent?_eq, parent?_eq]; exact i2 x hx
+    · intro x hx
+      exact isLive_eq_of_count (f' := { f with roots := f.roots.filter (fun r => r.handle != h) }) w i1 hx
     · intro x hx; exact i3 x hx
   | false =>
     have hc : f.cut h = ({ f with roots := f.roots.map (replaceBelow h (fun _ => [])) }, some t) := by
@@ -156,22 +187,12 @@ theorem cut_spec {f : Forest} (w : f.W) {h : Nat} {t : HTree} (hg : f.get? h = s
 theorem cut_dead {f : Forest} {h : Nat} (hg : f.get? h = none) : f.cut h = (f, none) := by
   unfold cut; rw [hg]
 
-/-- Liveness after a removal described by multiplicities. -/
-theorem isLive_of_count {f f' : Forest} (w : f.W) {L : List Nat}
-    (hc : ∀ a, f'.allHandles.count a + L.count a = f.allHandles.count a) (x : Nat) :
-    f'.isLive x = true ↔ f.isLive x = true ∧ x ∉ L := by
-  rw [isLive_iff_mem, isLive_iff_mem, ← List.count_pos_iff, ← List.count_pos_iff,
-    ← List.count_eq_zero]
-  have h1 := hc x
-  have h2 := (List.nodup_iff_count.1 w.nodup) x
-  omega
-
 /-- `spliceOut` of a non-root node, or of a root with at most one child. -/
 theorem spliceOut_spec {f : Forest} (w : f.W) {h : Nat} {t : HTree} (hg : f.get? h = some t)
     (hk : f.isRoot h = true → t.kids.length ≤ 1) :
     (f.spliceOut h).W ∧
     (∀ a, (f.spliceOut h).allHandles.count a + [h].count a = f.allHandles.count a) ∧
-    Frame f (f.spliceOut h) (handles t) := by
+    Frame f (f.spliceOut h) (handles t) (handles t) := by
   have hlt : leafOk t = true := findList?_leafOk h f.roots t w.leaves hg
   have hth : t.handle = h := get?_handle hg
   have hlk : leafOkList t.kids = true := by
@@ -190,7 +211,7 @@ theorem spliceOut_spec {f : Forest} (w : f.W) {h : Nat} {t : HTree} (hg : f.get?
       simp only [List.count_cons, List.count_nil] at this ⊢
       rw [handlesList_append, List.count_append]
       unfold allHandles; omega
-    refine ⟨⟨?_, ?_⟩, hcount, ⟨?_, ?_, rfl, rfl⟩⟩
+    refine ⟨⟨?_, ?_⟩, hcount, ⟨?_, ?_, ?_, rfl, rfl⟩⟩
     · exact nodup_of_count_le w.nodup (fun a => by have := hcount a; unfold allHandles at *; simp only; omega)
     · show leafOkList (_ ++ _) = true
       rw [leafOkList_append, (i4 w.leaves).1, hlk]; rfl
@@ -202,6 +223,10 @@ theorem spliceOut_spec {f : Forest} (w : f.W) {h : Nat} {t : HTree} (hg : f.get?
         intro h'; apply hx; rw [handles_eq]; exact List.mem_cons_of_mem _ h'
       rw [rootsParent_none_of_not_mem this]
       cases List.findSome? (parentBelow x) f.roots <;> rfl
+    · intro x hx
+      have hx' : x ∉ [h] := by
+        intro e; apply hx; rw [handles_eq, hth]; simp only [List.mem_singleton] at e; simp [e]
+      exact isLive_eq_of_count (f' := { f with roots := f.roots.filter (fun r => r.handle != h) ++ t.kids }) w hcount hx'
     · intro x hx
       have : x ∉ handlesList t.kids := by
         intro h'; apply hx; rw [handles_eq]; exact List.mem_cons_of_mem _ h'
@@ -225,11 +250,12 @@ theorem spliceOut_spec {f : Forest} (w : f.W) {h : Nat} {t : HTree} (hg : f.get?
       unfold allHandles at this; unfold allHandles; simp only at this; omega
     have hn' : (handlesList (f.roots.map (replaceBelow h (fun n => n.kids)))).Nodup :=
       nodup_of_count_le w.nodup (fun a => by have := hcount a; unfold allHandles at *; omega)
-    refine ⟨⟨hn', j2⟩, hcount, (j3 hn').mono ?_⟩
-    intro x hx
-    rcases List.mem_append.1 hx with h' | h'
-    · exact h'
-    · rw [handles_eq]; exact List.mem_cons_of_mem _ h'
+    have hsub : ∀ x ∈ handles t ++ handlesList t.kids, x ∈ handles t := by
+      intro x hx
+      rcases List.mem_append.1 hx with h' | h'
+      · exact h'
+      · rw [handles_eq]; exact List.mem_cons_of_mem _ h'
+    exact ⟨⟨hn', j2⟩, hcount, (j3 hn').mono hsub hsub⟩
 
 theorem spliceOut_dead {f : Forest} {h : Nat} (hg : f.get? h = none) : f.spliceOut h = f := by
   unfold spliceOut; rw [hg]
